@@ -71,7 +71,9 @@ class norm_conj_atom(Conv):
                                 rewr_conv('conj_false_right'))
             
             cp = term_ord.fast_compare(t.arg1, t.arg.arg1)
-            if cp > 0:
+            if cp > 0 or (cp < 0 and Not(t.arg1) in t.arg.strip_conj()):
+                # Also move past larger members when the complement of the atom
+                # is further right: the conjunction then collapses to false
                 return pt.on_rhs(swap_conj_r(), arg_conv(self), try_conv(self))
             elif cp == 0:
                 return pt.on_rhs(rewr_conv('conj_assoc'), 
@@ -139,14 +141,20 @@ class norm_disj_atom(Conv):
                                 rewr_conv('disj_true_left'))
             
             cp = term_ord.fast_compare(t.arg1, t.arg.arg1)
-            if cp > 0:
-                return pt.on_rhs(swap_disj_r(), arg_conv(self))
+            if cp > 0 or (cp < 0 and Not(t.arg1) in t.arg.strip_disj()):
+                # Also move past larger members when the complement of the atom
+                # is further right: the disjunction then collapses to true
+                return pt.on_rhs(swap_disj_r(), arg_conv(self), try_conv(self))
             elif cp == 0:
                 return pt.on_rhs(rewr_conv('disj_assoc_eq'), 
                                 arg1_conv(rewr_conv('disj_same_atom')))
             else:
                 return pt
         else:
+            if t.arg == Not(t.arg1):
+                return pt.on_rhs(rewr_conv('disj_pos_neg'))
+            elif t.arg1 == Not(t.arg):
+                return pt.on_rhs(rewr_conv('disj_neg_pos'))
             cp = term_ord.fast_compare(t.arg1, t.arg)
             if cp > 0:
                 return pt.on_rhs(swap_disj_r())
